@@ -139,12 +139,29 @@ func (p *fmter) diffFile(ff []Fragment) {
 	}
 }
 
+// quoteString renders a string literal the lexer reads back to the same
+// value: lexEscape accepts exactly \\, \" and an escaped newline.
+func quoteString(lit string) string {
+	var sb strings.Builder
+	sb.WriteRune('"')
+	for _, r := range lit {
+		switch r {
+		case '\\', '"', '\n':
+			sb.WriteRune('\\')
+		}
+		sb.WriteRune(r)
+	}
+	sb.WriteRune('"')
+	return sb.String()
+}
+
 func tokenSource(tok Token) string {
 	switch tok.Type {
 	case STRING:
-		return fmt.Sprintf("%q", tok.Lit)
+		return quoteString(tok.Lit)
 	case REGEX:
-		return fmt.Sprintf("/%s/", tok.Lit)
+		// the lexer reads // as a literal /
+		return "/" + strings.ReplaceAll(tok.Lit, "/", "//") + "/"
 	case DESCRIPTION:
 		return fmt.Sprintf("| %s", tok.Lit)
 	case COMMENT:
